@@ -7,6 +7,7 @@ import PgsVerif.Model.Context
 import PgsVerif.Model.Persist
 import PgsVerif.Model.Gen
 import PgsVerif.Model.FailStop
+import PgsVerif.Model.AstNav
 /-
   JSON glue: one `Engine` per correspondence.  Only decoding/encoding lives here; every function
   called is the very definition the theorems in `PgsVerif/Props` are about.
@@ -257,7 +258,13 @@ def engine : Engine :=
   mkEngine (I := In) (O := Outcome) (fun i => run i.plan) (fun _ => true) (fun i o => judge i.plan o)
 end C14
 
+/-! ### AST engines -/
+namespace AST
+def engineC01 : Engine :=
+  mkEngine (I := World) (O := NavObs) navModel (fun _ => true) judgeNav
+end AST
+
 def engines : List (String × Engine) :=
-  [ ("c11", C11.engine), ("fp", FP.engine), ("c15", C15.engine), ("c19", C19.engine), ("c20", C20.engine), ("c18", C18.engine), ("c10", Persist.engineC10), ("c12", Persist.engineC12), ("c11p", Persist.engineC10), ("c13", C13.engine), ("c14", C14.engine) ]
+  [ ("c11", C11.engine), ("fp", FP.engine), ("c15", C15.engine), ("c19", C19.engine), ("c20", C20.engine), ("c18", C18.engine), ("c10", Persist.engineC10), ("c12", Persist.engineC12), ("c11p", Persist.engineC10), ("c13", C13.engine), ("c14", C14.engine), ("c01", AST.engineC01) ]
 
 end Pgs
